@@ -62,6 +62,9 @@ def run_cell(cell, rec, seed):
             [np.einsum("ma,ab,mb->m", np.abs(x @ Mb[n].T) + np.abs(bb[n]) + np.abs(y[n]),
                        np.abs(Lam[n]), np.abs(x @ Mb[n].T) + np.abs(bb[n]) + np.abs(y[n]))
              for n in range(N)])
+        if R == 1 and rng.integers(0, 2):
+            # the same conditional is first used with another number of observations
+            lc.call(rec, "set_y(other N)", lambda: c.set_y(J(gen.vec(rng, N + 2, Dy)), **kw), info)
         f = lc.call(rec, "set_y", lambda: c.set_y(J(y), **kw), info)
         if f is None:
             continue
